@@ -48,6 +48,10 @@ type TypeOps struct {
 	PlainHT, CtxHT reflect.Type
 	// IDOf extracts the id from an event value of this type passed as any
 	IDOf func(ev any) (int, bool)
+	// SubReplay is SubscribeWithReplay for this type with a handler that calls h
+	SubReplay func(w *World, ctx context.Context, subID string, h func(id int)) error
+	// PersistName is the type name events of this type are persisted under
+	PersistName string
 }
 
 // fn numbering: 0..numSites-1 are plain handlers, numSites..2*numSites-1 context-aware ones.
@@ -120,6 +124,10 @@ func mkOps[T evC](idx int) *TypeOps {
 			eventbus.PublishContext(w.Bus, ctx, ev)
 		}
 	}
+	o.SubReplay = func(w *World, ctx context.Context, subID string, h func(id int)) error {
+		return eventbus.SubscribeWithReplay(ctx, w.Bus, subID, func(e T) { h(idOf(e)) })
+	}
+	o.PersistName = eventbus.EventType(zero)
 	o.Clear = func(w *World) { eventbus.Clear[T](w.Bus) }
 	o.Has = func(w *World) bool { return eventbus.HasHandlers[T](w.Bus) }
 	o.Count = func(w *World) int { return eventbus.HandlerCount[T](w.Bus) }
